@@ -459,6 +459,15 @@ def check_f(ctx, facts, sm, tier, seed):
                 ctx.violation('C19.f', 'repeat:%s' % name.split(' ')[0], 'a repeated request (with a request for another circuit in between) yields a different design', where,
                               witness=dict(design=name, differing_modules=[k for k in set(m1) | set(split_modules(t2)) if m1.get(k) != split_modules(t2).get(k)][:4]))
                 continue
+            # the same generator object asked twice (the list of already emitted modules must not survive the first request)
+            g0 = generator(D)
+            ta = D.el.call(D.el.getattr_(g0, 'getVerilogForHierarchy'), [], {}, {})
+            tb = D.el.call(D.el.getattr_(g0, 'getVerilogForHierarchy'), [], {}, {})
+            if split_modules(ta) != m1 or split_modules(tb) != m1:
+                mb = split_modules(tb)
+                ctx.violation('C19.f', 'same-generator:%s' % name.split(' ')[0], 'the second request to one generator object yields a different design (modules missing: %s)'
+                              % sorted(set(m1) - set(mb))[:4], where, witness=dict(design=name, history='g = VerilogGenerator(top); g.getVerilogForHierarchy(); g.getVerilogForHierarchy()'))
+                continue
             perturb(D)
             t3 = hierarchy_text(D)
             if split_modules(t3) != m1:
@@ -538,5 +547,7 @@ def run(ctx, sm, facts):
     if not ps:
         ctx.ok('C19.c', 'no-persistent-state', 'no mutable default, memoising decorator or module/class-level container write in %d generation functions' % nf)
     check_f(ctx, facts, sm, ctx.tier, ctx.seed)
+    # "fresh list of emitted modules" is exercised by the same-generator histories of C19.f
+    ctx.defer_shape(('C19.c',), 'C19.f', 0, 0, keep=lambda v: not v['key'].startswith('fresh-module-list'))
     ctx.not_decided.append('textual equality across runs for designs outside the replayed catalogue (follows from purity + deterministic iteration, not proved)')
     ctx.assumptions.append('circuit values are recognised by parameter name / annotation and by being derived from them (listed vocabulary in the rule)')
